@@ -53,3 +53,12 @@ def pd(ex, st, name, *args):
     f = uf('pd.' + nm, *([Val] * len(args)), Val)
     rc = _RCLS.get(nm)
     return V(f(*[ex.box(st, a) for a in args]), T('ref', cls=rc) if rc else ANY)
+
+
+@spec('c13_allocated')
+def c13_allocated(ex, st, obj):
+    """the object exists in the current state (reference below the allocation pointer), hence differs from
+    every object created later; the engine's loop rule does not assume this for the contents of a havocked list"""
+    from pyvc.vals import v_bool
+    r = _ref(ex, st, obj)
+    return v_bool(z3.And(Val.is_ref(ex.box(st, obj)), r >= 0, r < st.alloc))
